@@ -805,6 +805,10 @@ def _literal_truth(v):
     return None
 
 
+def env_d0(env):
+    return dict(env)
+
+
 def reach_with_flags(cfg, start_ids, avoid=(), exc=False, env=None):
     """nodes reachable from start_ids (not entering `avoid`) when locals that are bound to a constant on the way (`ok = False`)
     are remembered and the tests they decide (`if not ok:`) are followed on the decided side only - the result flag idiom of a
@@ -838,6 +842,12 @@ def reach_with_flags(cfg, start_ids, avoid=(), exc=False, env=None):
                 if tv is not None:
                     envd[a.targets[0].id] = tv
                     envd[f'{a.targets[0].id} is None'] = isinstance(a.value, ast.Constant) and a.value.value is None
+                elif isinstance(a.value, ast.Name) and a.value.id in env_d0(env):
+                    # a copy of a name whose state is known (`failure = e` in `except ... as e`)
+                    d0 = env_d0(env)
+                    envd[a.targets[0].id] = d0[a.value.id]
+                    if f'{a.value.id} is None' in d0:
+                        envd[f'{a.targets[0].id} is None'] = d0[f'{a.value.id} is None']
                 elif isinstance(a.value, (ast.UnaryOp, ast.BoolOp, ast.Compare, ast.Name)):
                     # a flag computed from flags: `wanted = not repeated`
                     known_ = dict(env)
